@@ -28,6 +28,21 @@ def str_chars(node, what):
     raise TieBroken(f"{what}: expected frozenset(<string literal>)")
 
 
+def lit_chars(node, what):
+    """A string literal used as a set of characters -> list of one-character strings."""
+    if isinstance(node, ast.Constant) and isinstance(node.value, str):
+        return list(node.value)
+    raise TieBroken(f"{what}: expected a string literal")
+
+
+def need(mod, fn, fragments):
+    """Fail closed when a code fragment the model mirrors is no longer there."""
+    src = ast.unparse(func(mod, fn))
+    for fr in fragments:
+        if fr not in src:
+            raise TieBroken(f"{fn}: expected fragment not found: {fr}")
+
+
 def build():
     out = []
     mods = {m: load(f"cli/{m}.py") for m in MODELLED}
@@ -51,31 +66,41 @@ def build():
                 raise TieBroken(f"command {c!r} is claimed by {claimed.get(c)} - dispatch to cli/{m}.py is no longer unique")
         out.append(coq_strs(f"{m.upper()}_COMMANDS", cmds, f"cli/{m}.py COMMANDS"))
 
-    # the modelled handlers neither set HANDLES_HELP nor return redirect targets
+    # the modelled handlers return no redirect targets (HANDLES_HELP is the ladder model's business)
     for m in MODELLED:
         with open(os.path.join(SRC, "cli", f"{m}.py"), encoding="utf-8") as f:
             text = f.read()
-        if "HANDLES_HELP" in text or "redirect_targets" in text:
-            raise TieBroken(f"cli/{m}.py now uses HANDLES_HELP/redirect_targets: the ladder model must be extended")
+        if "redirect_targets" in text:
+            raise TieBroken(f"cli/{m}.py now returns redirect_targets: Wrappers.hverdict must be extended")
 
-    # the wrapper loop's literal tests
-    an = load("core/analyzer.py")
-    sc = func(an, "_analyze_simple_command")
-    src = ast.unparse(sc)
-    for needle in ("token.isdigit() or token.replace('.', '').isdigit()", "token.startswith('-') and token != '--'",
-                   "'=' in words[i] and (not words[i].startswith('-'))", "remote=result.remote"):
-        if needle not in src:
-            raise TieBroken(f"_analyze_simple_command: expected fragment not found: {needle}")
+    # shell
+    shm = mods["shell"]
+    out.append(coq_strs("SHELL_LONG_WITH_ARG", const_strs(module_assign(shm, "LONG_WITH_ARG"), "shell LONG_WITH_ARG"), "cli/shell.py LONG_WITH_ARG"))
+    out.append(coq_strs("SHELL_LONG_NO_ARG", const_strs(module_assign(shm, "LONG_NO_ARG"), "shell LONG_NO_ARG"), "cli/shell.py LONG_NO_ARG"))
+    need(shm, "classify", ["tokens[1] in ('--help', '--version')", "tok[0] in '-+'", "'c' in tok[1:]", "tok.count('o') + tok.count('O')",
+                           "tokens[i] not in ('-', '--')", "name = tokens[i].lstrip('-')"])
 
     # env
-    out.append(coq_strs("ENV_FLAGS_WITH_ARG", const_strs(module_assign(mods["env"], "FLAGS_WITH_ARG"), "env FLAGS_WITH_ARG"),
-                        "cli/env.py FLAGS_WITH_ARG"))
-    et = in_tuples(func(mods["env"], "classify"), "env")
-    out.append(coq_strs("ENV_SPLIT_FLAGS", pick(et, ["-S", "--split-string"], "env -S"), "cli/env.py: separate-word split-string flags"))
+    ev = mods["env"]
+    out.append(coq_strs("ENV_LONG_OPTIONS", const_strs(module_assign(ev, "LONG_OPTIONS"), "env LONG_OPTIONS"), "cli/env.py LONG_OPTIONS"))
+    out.append(coq_strs("ENV_LONG_WITH_ARG", const_strs(module_assign(ev, "LONG_WITH_ARG"), "env LONG_WITH_ARG"), "cli/env.py LONG_WITH_ARG"))
+    out.append(coq_strs("ENV_SHORT_WITH_ARG", lit_chars(module_assign(ev, "SHORT_WITH_ARG"), "env SHORT_WITH_ARG"),
+                        "cli/env.py SHORT_WITH_ARG (one-character strings)"))
+    need(ev, "classify", ["names[0] == 'split-string'", "token[k] == 'S'", "token[k] not in SHORT_WITH_ARG", "if token == '-':",
+                          "if len(names) != 1", "names[0] in LONG_WITH_ARG and (not eq)"])
 
     # xargs
     out.append(coq_strs("XARGS_FLAGS_WITH_ARG", const_strs(module_assign(mods["xargs"], "FLAGS_WITH_ARG"), "xargs FLAGS_WITH_ARG"),
                         "cli/xargs.py FLAGS_WITH_ARG"))
+    xa = mods["xargs"]
+    out.append(coq_strs("XARGS_LONG_OPTIONS", const_strs(module_assign(xa, "LONG_OPTIONS"), "xargs LONG_OPTIONS"), "cli/xargs.py LONG_OPTIONS"))
+    out.append(coq_strs("XARGS_LONG_WITH_ARG", const_strs(module_assign(xa, "LONG_WITH_ARG"), "xargs LONG_WITH_ARG"), "cli/xargs.py LONG_WITH_ARG"))
+    out.append(coq_strs("XARGS_SHORT_OPTIONAL_ARG", lit_chars(module_assign(xa, "SHORT_OPTIONAL_ARG"), "xargs SHORT_OPTIONAL_ARG"),
+                        "cli/xargs.py SHORT_OPTIONAL_ARG (one-character strings)"))
+    need(xa, "_skip_flags", ["'-' + token[k] not in flags_with_arg", "token[k] not in SHORT_OPTIONAL_ARG",
+                             "len(names) == 1 and names[0] in LONG_WITH_ARG and (not eq)"])
+    need(xa, "classify", ["t.startswith(('-I', '-i', '--replace', '--rep', '-J'))", "t.endswith('I')", "inner_tokens + ['{}']",
+                          "'--interactive'.startswith(token) or '--open-tty'.startswith(token)", "len(token) > 3"])
     out.append(coq_strs("XARGS_UNSAFE_FLAGS", const_strs(module_assign(mods["xargs"], "UNSAFE_FLAGS"), "xargs UNSAFE_FLAGS"),
                         "cli/xargs.py UNSAFE_FLAGS"))
 
@@ -83,7 +108,8 @@ def build():
     ft = in_tuples(func(mods["find"], "classify"), "find")
     out.append(coq_strs("FIND_OK_FLAGS", pick(ft, ["-ok", "-okdir"], "find -ok"), "cli/find.py interactive exec flags"))
     out.append(coq_strs("FIND_EXEC_FLAGS", pick(ft, ["-exec", "-execdir"], "find -exec"), "cli/find.py exec flags"))
-    out.append(coq_strs("FIND_TERMINATORS", pick(ft, [";", "+"], "find terminators"), "cli/find.py clause terminators"))
+    out.append(coq_strs("FIND_TERMINATORS", pick(ft, [";", "\\;"], "find terminators"), "cli/find.py clause terminators (a + counts only after {})"))
+    need(mods["find"], "classify", ["tokens[j] == '+' and inner_tokens and (inner_tokens[-1] == '{}')"])
 
     # fd
     out.append(coq_strs("FD_EXEC_FLAGS", const_strs(module_assign(mods["fd"], "EXEC_FLAGS"), "fd EXEC_FLAGS"), "cli/fd.py EXEC_FLAGS"))
@@ -92,6 +118,8 @@ def build():
     fdsrc = ast.unparse(func(mods["fd"], "classify"))
     if "for flag in ('--exec-batch=', '--exec=', '-x', '-X')" not in fdsrc or "token[k] in 'xX'" not in fdsrc:
         raise TieBroken("fd classify: attached-form tuple changed")
+    need(mods["fd"], "classify", ["';' in inner_tokens or '\\\\;' in inner_tokens", "classify(HandlerContext(['fd'] + inner_tokens[cut + 1:], cwd=ctx.cwd))",
+                                  "if not inner_tokens or rest.action == 'ask'", "inner_cmd + '; ' + rest.inner_command"])
 
     # docker
     dk = mods["docker"]
@@ -99,6 +127,8 @@ def build():
                         "cli/docker.py GLOBAL_FLAGS_WITH_ARG"))
     out.append(coq_strs("DOCKER_EXEC_FLAGS_WITH_ARG", const_strs(module_assign(dk, "EXEC_FLAGS_WITH_ARG"), "docker EXEC_FLAGS_WITH_ARG"),
                         "cli/docker.py EXEC_FLAGS_WITH_ARG"))
+    out.append(coq_strs("DOCKER_EXEC_SHORT_WITH_ARG", lit_chars(module_assign(dk, "EXEC_SHORT_WITH_ARG"), "docker EXEC_SHORT_WITH_ARG"),
+                        "cli/docker.py EXEC_SHORT_WITH_ARG (one-character strings)"))
     out.append(coq_strs("DOCKER_SAFE_ACTIONS", const_strs(module_assign(dk, "SAFE_ACTIONS"), "docker SAFE_ACTIONS"), "cli/docker.py SAFE_ACTIONS"))
     out.append(coq_strs("DOCKER_SUBCMD_KEYS", dict_keys(module_assign(dk, "SAFE_SUBCOMMANDS"), "docker SAFE_SUBCOMMANDS")
                         + dict_keys(module_assign(dk, "UNSAFE_SUBCOMMANDS"), "docker UNSAFE_SUBCOMMANDS"),
@@ -110,6 +140,8 @@ def build():
     kc = mods["kubectl"]
     kt = in_tuples(func(kc, "classify"), "kubectl")
     out.append(coq_strs("KUBECTL_FLAGS_WITH_ARG", pick(kt, ["-n", "--namespace"], "kubectl flags"), "cli/kubectl.py classify: global flags with an argument"))
+    out.append(coq_strs("KUBECTL_EXEC_BOOL_FLAGS", const_strs(module_assign(kc, "EXEC_BOOL_FLAGS"), "kubectl EXEC_BOOL_FLAGS"), "cli/kubectl.py EXEC_BOOL_FLAGS"))
+    need(kc, "_extract_exec_inner_command", ["(token[1] in 'cnfsv')", "all((c in 'itq' for c in token[1:]))", "'=' not in token and (token not in EXEC_BOOL_FLAGS)"])
     out.append(coq_strs("KUBECTL_SAFE_ACTIONS", const_strs(module_assign(kc, "SAFE_ACTIONS"), "kubectl SAFE_ACTIONS"), "cli/kubectl.py SAFE_ACTIONS"))
     out.append(coq_strs("KUBECTL_SUBCMD_KEYS", dict_keys(module_assign(kc, "SAFE_SUBCOMMANDS"), "kubectl SAFE_SUBCOMMANDS")
                         + dict_keys(module_assign(kc, "UNSAFE_SUBCOMMANDS"), "kubectl UNSAFE_SUBCOMMANDS"),
